@@ -469,8 +469,11 @@ def cli_block_list(ctx, cli, c12drv, lz):
 
 # ------------------------------------------------------------------------------------------------ run
 QUICK_MC = [("MCXzStreamEnc", "MCXzStreamEnc.cfg", 4), ("MCXzStreamEnc", "MCXzStreamEncOne.cfg", 3)]
-THOROUGH_MC = [("MCXzStreamEnc", "MCXzStreamEncT_%s.cfg" % e, 3) for e in ("stream", "mt", "raw", "block")] + \
-              [("MCXzStreamEnc", "MCXzStreamEncT5.cfg", 4)]
+# thorough: <= 4 operations x {1-byte, big} grants x {CRC, no check}; <= 5 operations (big grants); 0..2 bytes x <= 3 operations
+THOROUGH_MC = [("MCXzStreamEnc", "MCXzStreamEncT_stream.cfg", 4), ("MCXzStreamEnc", "MCXzStreamEncT5_stream.cfg", 3)] + \
+              [("MCXzStreamEnc", "MCXzStreamEncT_%s.cfg" % e, 3) for e in ("raw", "block", "mt")] + \
+              [("MCXzStreamEnc", "MCXzStreamEncT2.cfg", 3)] + \
+              [("MCXzStreamEnc", "MCXzStreamEncT5_%s.cfg" % e, 3) for e in ("raw", "block", "mt")]
 
 def trace_key(label, e, idx):
     what = e.get("e")
@@ -512,7 +515,8 @@ def run(ctx):
     quick = ctx.quick
     # (M) in the background
     pool = ThreadPoolExecutor(6)
-    mc_jobs = [(cfg, pool.submit(tlc.run, mod, cfg=cfg, workers=w, timeout=240 if quick else 1400, coverage=False))
+    mcpool = ThreadPoolExecutor(2 if quick else 3)
+    mc_jobs = [(cfg, mcpool.submit(tlc.run, mod, cfg=cfg, workers=w, timeout=240 if quick else 1400, coverage=False))
                for mod, cfg, w in (QUICK_MC if quick else THOROUGH_MC)]
     # non-vacuity of the contract: deliberately wrong variants of the model (Bugs constant) must violate it
     bug_names = ["bcj_accepts_sync", "no_state_reset_after_uncompressed"] if quick else \
@@ -548,7 +552,7 @@ def run(ctx):
     for k in sorted(bfs):
         p = bfs[k][0]
         groups[(p["enc"], p["chain"]["pre"], p["chain"]["lz"], p["bsize"])].append(k)
-    per = (32 if quick else 700)
+    per = (32 if quick else 400)
     chosen = []
     featcount = collections.Counter()
     for gk in sorted(groups):
@@ -575,8 +579,10 @@ def run(ctx):
     simk = sorted(sim)
     ctx.rng.shuffle(simk)
     chosen_sim = [sim[k] for k in simk[:(120 if quick else 1200)]]
-    traces = run_replays(ctx, L["so"], chosen, "bfs histories <= 3 operations", 120 if quick else 900, 14000 if quick else 120000)
-    traces += run_replays(ctx, L["so"], chosen_sim, "simulated histories <= 8 operations", 40 if quick else 300, 8000 if quick else 60000)
+    traces = run_replays(ctx, L["so"], chosen, "bfs histories <= 3 operations", 120 if quick else 700, 14000 if quick else 90000,
+                         nworkers=3 if quick else 4)
+    traces += run_replays(ctx, L["so"], chosen_sim, "simulated histories <= 8 operations", 40 if quick else 300, 8000 if quick else 50000,
+                          nworkers=3 if quick else 4)
     traces += cli_traces
     # (V)
     rej = tracev.validate(ctx, "TraceXzStreamEnc", traces, trace_key, maxl=True, timeout=600 if quick else 1500)
@@ -596,7 +602,7 @@ def run(ctx):
         if not r.violation:
             raise MachineryError("model variant %s does not violate the contract: the contract is vacuous there\n%s" % (b, r.out[-1500:]))
     ctx.log("model variants violating the contract as they must: %s" % ", ".join(bug_names))
-    pool.shutdown()
+    pool.shutdown(); mcpool.shutdown()
     ctx.assumptions += [
         "data is abstracted to 'at least one byte' per pipeline stage; byte conservation between stages is assumed",
         "the application never withdraws input it has offered and never calls lzma_filters_update in the middle of an unfinished lzma_code loop",
